@@ -11,7 +11,8 @@
    Only statements; every proof is `exact <lemma>` (Proofs/Convert.v, Proofs/ConvertFit.v). *)
 From Coq Require Import ZArith QArith Qminmax Qround Reals List Bool String.
 From ACN Require Import Base.Num Base.NumR Gen.Convert_Q Gen.Fit_R Gen.FitConst Gen.Battery_R
-     Model.Convert Model.ConvertR Proofs.Convert Proofs.ConvertFit.
+     Gen.Battery_Q Model.Convert Model.ConvertR Model.ConvertDeliver Proofs.Convert Proofs.ConvertFit
+     Proofs.ConvertDeliver.
 Import ListNotations.
 
 (* ========================================================================================== *)
@@ -190,6 +191,27 @@ Theorem C15_stoch_day_shift : forall b d raw rest,
    ++ day_rows b (d + 1) rest)%list.
 Proof. exact day_rows_cons. Qed.
 Print Assumptions C15_stoch_day_shift.
+
+(* force_feasible makes the session deliverable: with the default battery, charging flat out
+   (any pilot whose power is at least max_battery_power) for every period of the stay with the
+   regenerated Battery.charge fills the battery to exactly the requested energy — on both paths *)
+Theorem C15_force_feasible_deliverable : forall off T V maxP max_len conn disc kwh o pilot,
+  0 < T -> 0 < V -> 0 <= maxP -> maxP <= pilot * V / 1000 ->
+  convert_to_ev off T V maxP max_len BP_default true (conn, disc, kwh) = Ok o ->
+  (0 <= ev_departure o - ev_arrival o)%Z ->
+  batt_run_Q (Z.to_nat (ev_departure o - ev_arrival o)) (ev_cap o) maxP pilot V T (ev_init o)
+  == ev_requested o.
+Proof. exact session_deliverable. Qed.
+Print Assumptions C15_force_feasible_deliverable.
+
+Theorem C15_stoch_force_feasible_deliverable : forall T V maxP max_len a d e o pilot,
+  0 < T -> 0 < V -> 0 <= maxP -> maxP <= pilot * V / 1000 ->
+  stoch_convert_row T V maxP max_len BP_default true (a, d, e) = Ok o ->
+  (0 <= ev_departure o - ev_arrival o)%Z ->
+  batt_run_Q (Z.to_nat (ev_departure o - ev_arrival o)) (ev_cap o) maxP pilot V T (ev_init o)
+  == ev_requested o.
+Proof. exact stoch_deliverable. Qed.
+Print Assumptions C15_stoch_force_feasible_deliverable.
 
 (* the hypotheses are satisfiable: two documents 5-minute periods, one capped by max_len and
    force_feasible, default battery *)
